@@ -1,5 +1,6 @@
 // C15 — explicit-state BFS over a real Teakra::Timer with a lock-step reference model.
 #pragma once
+#include <memory>
 #include "../common/verif.h"
 #include "timer.h"
 #include "crash.h"
@@ -137,16 +138,25 @@ inline std::string Show(const Event& e) {
 }
 
 struct Engine {
-    Teakra::CoreTiming core_timing;
-    Teakra::Timer timer{core_timing};
+    // every transition runs on a freshly constructed timer loaded with the state's fields: whatever a Timer may hold beyond
+    // its public fields starts from the constructor's value, at exploration time and at replay time alike
+    struct Rig {
+        Teakra::CoreTiming core_timing;
+        Teakra::Timer timer{core_timing};
+    };
+    std::unique_ptr<Rig> rig;
     int irq = 0;
+    Teakra::Timer& Fresh(const TS& s) {
+        rig = std::make_unique<Rig>();
+        rig->timer.SetInterruptHandler([this]() { ++irq; });
+        Load(rig->timer, s);
+        return rig->timer;
+    }
     Result& res;
     bool thorough;
     std::set<u64> outcome_digests;
 
-    Engine(Result& r, bool th) : res(r), thorough(th) {
-        timer.SetInterruptHandler([this]() { ++irq; });
-    }
+    Engine(Result& r, bool th) : res(r), thorough(th) {}
 
     std::vector<Event> Enabled(const TS& s, bool full) {
         std::vector<Event> ev;
@@ -171,7 +181,7 @@ struct Engine {
         }
         // Skip(k): every k up to min(horizon, 8), the horizon itself, and for an infinite horizon
         // a few large values.  The horizon is the one the *implementation* reports.
-        Load(timer, s);
+        Teakra::Timer& timer = Fresh(s);
         u64 h = timer.GetMaxSkip();
         u64 lim = std::min<u64>(h, 8);
         for (u64 k = 0; k <= lim; ++k)
@@ -202,7 +212,7 @@ struct Engine {
     // ok=false if the implementation ended in a deliberate assertion (successor not explored).
     TS Step(const TS& s, const Event& e, bool& ok) {
         ok = true;
-        Load(timer, s);
+        Teakra::Timer& timer = Fresh(s);
         irq = 0;
         TS ref = s;
         int ref_irq = 0;
@@ -277,14 +287,14 @@ struct Engine {
         }
         // (2) differential on the real code: Skip(k) == k x Tick (k small enough to iterate)
         if (e.kind == EvSkip && e.arg <= 64) {
-            Load(timer, s);
+            Teakra::Timer& timer2 = Fresh(s);
             irq = 0;
             try {
                 for (u64 i = 0; i < e.arg; ++i)
-                    timer.Tick();
+                    timer2.Tick();
             } catch (const Teakra::VerifAssertion&) {
             }
-            TS ticked = Save(timer);
+            TS ticked = Save(timer2);
             ++res.evaluations;
             if (!(ticked == got) || irq != 0) {
                 res.AddViolation(std::string("c15:skip-vs-ticks:") + (e.arg == 0 ? "k=0:" : "k>0:") + Cls(s),
@@ -341,14 +351,20 @@ struct Engine {
 
 // ---- L3: two timers on one CoreTiming: the aggregated fast-forward equals that many aggregated cycles ----------
 struct PairEngine {
-    Teakra::CoreTiming ct;
-    Teakra::Timer a{ct}, b{ct};
+    struct Rig {
+        Teakra::CoreTiming ct;
+        Teakra::Timer a{ct}, b{ct};
+    };
+    std::unique_ptr<Rig> rig;
     int irq_a = 0, irq_b = 0;
     Result& res;
     std::unordered_set<u64> digests;
-    explicit PairEngine(Result& r) : res(r) {
-        a.SetInterruptHandler([this]() { ++irq_a; });
-        b.SetInterruptHandler([this]() { ++irq_b; });
+    explicit PairEngine(Result& r) : res(r) {}
+    void Fresh(const TS& sa, const TS& sb) {
+        rig = std::make_unique<Rig>();
+        rig->a.SetInterruptHandler([this]() { ++irq_a; });
+        rig->b.SetInterruptHandler([this]() { ++irq_b; });
+        Load(rig->a, sa), Load(rig->b, sb);
     }
     static std::vector<TS> Alphabet() {
         std::vector<TS> v;
@@ -365,18 +381,18 @@ struct PairEngine {
         return v;
     }
     void Check(const TS& sa, const TS& sb, u64 maximum) {
-        Load(a, sa), Load(b, sb);
+        Fresh(sa, sb);
         irq_a = irq_b = 0;
         u64 ticks = 0;
         try {
-            ticks = ct.Skip(maximum);
+            ticks = rig->ct.Skip(maximum);
         } catch (const Teakra::VerifAssertion& x) {
             res.AddViolation(std::string("c15:pair:assert:") + x.expression,
                              Fmt("CoreTiming::Skip(%llu) with timers %s and %s ends in the assertion '%s'", (unsigned long long)maximum, Show(sa).c_str(), Show(sb).c_str(), x.expression),
                              Replay(sa, sb, maximum));
             return;
         }
-        TS ga = Save(a), gb = Save(b);
+        TS ga = Save(rig->a), gb = Save(rig->b);
         int ia = irq_a, ib = irq_b;
         ++res.transitions, ++res.traces_validated, ++res.evaluations;
         std::string bad;
@@ -385,11 +401,11 @@ struct PairEngine {
         else if (ia || ib)
             bad = "an interrupt fired inside the fast-forward";
         else if (ticks <= 4096) {
-            Load(a, sa), Load(b, sb);
+            Fresh(sa, sb);
             irq_a = irq_b = 0;
             for (u64 i = 0; i < ticks; ++i)
-                ct.Tick();
-            TS ta = Save(a), tb = Save(b);
+                rig->ct.Tick();
+            TS ta = Save(rig->a), tb = Save(rig->b);
             if (irq_a || irq_b)
                 bad = Fmt("the %llu cycles it reports contain an interrupt when stepped one by one", (unsigned long long)ticks);
             else if (!(ta == ga))
